@@ -27,6 +27,10 @@
 (*                 to force on the real table (a schedule the real locks      *)
 (*                 forbid degrades into one they allow; the recorded history  *)
 (*                 is judged by MembersTrace.tla whatever happened)           *)
+(* Empty() clears the address table, then the lists, with nothing held in between: with   *)
+(* "Empty" among the calls AtRestConsistent fails for "repo" too (MembersPool_cand_empty:  *)
+(* a join between the two leaves an address that is in no list) - a model-level candidate, *)
+(* reported as such: the harness has no boundary to hold Empty at.                         *)
 (* Each goroutine performs ONE call, chosen at Init together with the table's *)
 (* content (init0). Checked: NoDup, AgreeWhenUnlocked (the reason the          *)
 (* statement holds), and at rest (all calls returned) AtRestConsistent (lists  *)
@@ -47,7 +51,7 @@ None == "none"
 VARIABLES addrT,   \* Addr -> Node \cup {None}: the address table (node of the stored member)
           list,    \* Node -> Seq(Addr): the per-node lists
           lock,    \* Addr -> Procs \cup {0}: who is inside the critical section of the address
-          pc,      \* Procs -> "start" | "eq" | "old" | "new" | "lstr" | "done"
+          pc,      \* Procs -> "start" | "eq" | "old" | "new" | "lstr" | "elist" | "done"
           loc,     \* Procs -> [old, r]: node of the member found at the start, the answer
           ops,     \* Procs -> call (constant of the behaviour)
           init0,   \* content of the table before the calls (constant of the behaviour)
@@ -61,7 +65,7 @@ N == Cardinality(Procs)
 ASSUME Procs = 1..N
 AddrOrder == <<"a1", "a2", "a3", "a4">>
 NodeOrder == <<"n1", "n2", "n3">>
-OpOrder   == <<"Join", "Leave", "Exists", "Get", "MembersLen", "Others", "Len">>
+OpOrder   == <<"Join", "Leave", "Exists", "Get", "MembersLen", "Others", "Len", "Empty">>
 Idx(s, x) == IF x = None THEN 0 ELSE CHOOSE i \in 1..Len(s) : s[i] = x
 ASSUME Addr \subseteq {AddrOrder[i] : i \in 1..Len(AddrOrder)}
 ASSUME Node \subseteq {NodeOrder[i] : i \in 1..Len(NodeOrder)}
@@ -155,20 +159,37 @@ LStr(p) ==
             ELSE addrT' = [addrT EXCEPT ![a] = None] /\ Exit(a)
   /\ Goto(p, "done") /\ UNCHANGED loc /\ Tok(p) /\ Const
 
+(* ---------------- membersPool.Empty(): addrs.Empty() ; members.Empty() ---------------- *)
+(* No call on an address object lies between the two: the harness cannot hold a goroutine  *)
+(* there, so with Forced the two are one step; in the model they are two.                  *)
+EAddrs(p) ==
+  /\ pc[p] = "start" /\ ops[p].op = "Empty"
+  /\ \A a \in Addr : CanEnter(a)                    \* every shard lock is taken in turn
+  /\ addrT' = [a \in Addr |-> None]
+  /\ Found(p, None, M!Rep(0, None, 0, 0))
+  /\ IF Forced THEN list' = [n \in Node |-> <<>>] /\ Goto(p, "done")
+               ELSE UNCHANGED list /\ Goto(p, "elist")
+  /\ UNCHANGED lock /\ Tok(p) /\ Const
+ELists(p) ==
+  /\ pc[p] = "elist"
+  /\ list' = [n \in Node |-> <<>>]
+  /\ Goto(p, "done") /\ UNCHANGED <<addrT, lock, loc>> /\ Tok(p) /\ Const
+
 (* ---------------- reads: one access to one table ---------------- *)
 ListAnswer(c) ==
   LET s == list[c.node] IN
   IF c.op = "MembersLen" THEN M!Rep(0, None, Len(s), 0)
   ELSE M!Rep(M!B2N(c.addr \in Range(s)), None, Len(s), Len(Filter(s, c.addr)))
 Read(p) ==
-  /\ pc[p] = "start" /\ ops[p].op \notin {"Join", "Leave"}
+  /\ pc[p] = "start" /\ ops[p].op \notin {"Join", "Leave", "Empty"}
   /\ LET c == ops[p] IN
        /\ c.op \in {"Exists", "Get"} => CanEnter(c.addr)       \* read lock of the address's shard
        /\ Found(p, None, IF c.op \in {"MembersLen", "Others"} THEN ListAnswer(c) ELSE M!AnswerIn(addrT, c))
   /\ Goto(p, "done") /\ UNCHANGED <<addrT, list, lock>> /\ Tok(p) /\ Const
 
 Done == \A p \in Procs : pc[p] = "done"
-Next == \E p \in Procs : JStart(p) \/ JEq(p) \/ JOld(p) \/ JNew(p) \/ LStart(p) \/ LStr(p) \/ Read(p)
+Next == \E p \in Procs : \/ JStart(p) \/ JEq(p) \/ JOld(p) \/ JNew(p) \/ LStart(p) \/ LStr(p)
+                         \/ EAddrs(p) \/ ELists(p) \/ Read(p)
 Spec == Init /\ [][Next]_pvars
 
 -----------------------------------------------------------------------------
@@ -183,7 +204,7 @@ AgreeWhenUnlocked == \A a \in Addr : lock[a] = 0 => AgreeOn(a)
 AtRestConsistent == Done => NoDup /\ \A a \in Addr : AgreeOn(a)
 (* at rest: the address table and the answers are those of SOME order of the calls on the  *)
 (* sequential table (reads of the lists made while other calls run are not constrained)     *)
-Strict(c) == c.op \in {"Join", "Leave", "Exists", "Get"}
+Strict(c) == c.op \in {"Join", "Leave", "Exists", "Get", "Empty"}
 Orders == {f \in [1..N -> Procs] : \A i, j \in 1..N : i # j => f[i] # f[j]}
 ExplainedBy(f) ==
   LET St[k \in 0..N] == IF k = 0 THEN init0 ELSE M!AfterIn(St[k - 1], ops[f[k]]) IN
